@@ -1113,16 +1113,19 @@ func Retract(vm *VM, t Term, k Cont, env *Env) *Promise {
 		return Error(permissionError(operationModify, permissionTypeStaticProcedure, pi.Term(), env))
 	}
 
-	deleted := 0
 	ks := make([]func(context.Context) *Promise, len(u.clauses))
 	for i, c := range u.clauses {
-		i := i
+		c := c
 		raw := rulify(c.raw, env)
 		ks[i] = func(_ context.Context) *Promise {
 			return Unify(vm, t, raw, func(env *Env) *Promise {
-				j := i - deleted
-				u.clauses, u.clauses[len(u.clauses)-1] = append(u.clauses[:j], u.clauses[j+1:]...), clause{}
-				deleted++
+				// Removes the very clause it unified with, wherever it is by now, without touching the snapshots of open calls.
+				for j := range u.clauses {
+					if id(u.clauses[j].raw) == id(c.raw) {
+						u.clauses = append(u.clauses[:j:j], u.clauses[j+1:]...)
+						break
+					}
+				}
 				return k(env)
 			}, env)
 		}
